@@ -83,3 +83,37 @@ Proof.
   split. { unfold demo_ops, safe. repeat constructor; discriminate. }
   split; [vm_compute; reflexivity|]. vm_compute. discriminate.
 Qed.
+
+(* ---- the refuted statements, as existentials ---- *)
+Lemma replay_can_finish_refuted :
+  exists fs ops, let s := run (init fs) ops in
+  (exists a, act s = Some a /\ a_flow a = 0) /\
+  forall more, act (run s more) <> None /\ popped (log (run s more)) = popped (log s)
+               /\ forall n i r e, In (LFin n i r e) (log (run s more)) -> In (LFin n i r e) (log s).
+Proof. exists [f_noresp; f_resp], wedge_ops. exact wedge_witness. Qed.
+
+Lemma taken_entry_has_outcome_refuted :
+  exists fs ops, let s := run (init fs) ops in
+  In (LCrash 0 0) (log s) /\ act s = None /\ queue s = []
+  /\ option_map (fun f => (o_resp (fo (cf f)), o_err (fo (cf f)))) (nth_error (flows s) 0) = Some (None, false).
+Proof. exists [f_noresp], [Submit [0]; Edit 0 EDropRequest; Loop]. exact crash_witness. Qed.
+
+Lemma every_entry_sends_refuted :
+  exists fs ops, let s := run (init fs) ops in
+  In (LStale 1 0) (log s) /\ In (LFin 1 0 (Some 101) false) (log s) /\ ~ In (LReq 1 0) (log s)
+  /\ queue s = [] /\ act s = None.
+Proof. exists [f_noresp], twice. exact stale_witness. Qed.
+
+Lemma stop_restores_refuted :
+  exists fs before_ops i,
+  let before := run (init fs) before_ops in
+  let after := run before [Submit [i]; Stop] in
+  option_map (fun f => o_content (fo (cf f))) (nth_error (flows before) i) = Some (Some 7)
+  /\ option_map (fun f => o_content (fo (cf f))) (nth_error (flows after) i) = Some (Some 0)
+  /\ option_map (fun f => fbackup (cf f)) (nth_error (flows before) i) <> Some None
+  /\ option_map (fun f => fbackup (cf f)) (nth_error (flows after) i) = Some None
+  /\ queue after = [].
+Proof.
+  exists [http_flow 0%N (Some 100)], [Edit 0 EBackup; Edit 0 (ESetContent 7)], 0.
+  exact stop_restores_refuted_witness.
+Qed.
